@@ -466,6 +466,10 @@ type ServicePortConfig struct {
 // ParsePortConfig parse short syntax for service port configuration
 func ParsePortConfig(value string) ([]ServicePortConfig, error) {
 	var portConfigs []ServicePortConfig
+	if strings.Count(value, "/") > 1 {
+		// nat.ParsePortSpecs silently ignores anything after a second '/'
+		return nil, fmt.Errorf("invalid port specification %q: unexpected '/' after protocol", value)
+	}
 	ports, portBindings, err := nat.ParsePortSpecs([]string{value})
 	if err != nil {
 		return nil, err
